@@ -6,6 +6,7 @@ import common
 
 PROPS = "RotoV.Props.C08"              # T1 order_spec, T2 lowerS_trace_partial, T3 dce_preserves_trace
 PROPS_SOURCE = "RotoV.Props.C08Source"  # regenerated step skeletons of the Lowerer functions, pinned
+PROPS_LIR = "RotoV.Props.C08Lir"        # one stage down: the MIR -> LIR block lowering keeps the order of calls (generated tables `mirlower`)
 EXTRA = ["RotoV.Model.TraceSpec", "RotoV.Lemmas.TraceSpec", "RotoV.Lemmas.TraceSpecMono", "RotoV.Model.LowerS", "RotoV.Lemmas.LowerS", "RotoV.Lemmas.LowerSim", "RotoV.Lemmas.LowerTotal",
          "RotoV.Lemmas.Dce", "RotoV.Model.Dce", "RotoV.Props.C01Dce"]
 
@@ -26,10 +27,10 @@ def search(ctx):
 def run(ctx):
     for f in glob.glob(os.path.join(common.VERIF, "evidence", "replays", "C08-*.json")):
         os.remove(f)
-    ctx.extract(["dce", "c08order"])
+    ctx.extract(["dce", "c08order", "mirlower"])
     extra = [m for m in EXTRA if os.path.exists(os.path.join(common.LEAN, *m.split(".")) + ".lean")]
     theorems, examples, axioms = [], 0, {}
-    for module, more in ((PROPS, extra), (PROPS_SOURCE, [])):
+    for module, more in ((PROPS, extra), (PROPS_SOURCE, []), (PROPS_LIR, ["RotoV.Model.MirLower"])):
         ctx.prove(module, extra_modules=more)
         theorems += ctx.coverage.get("theorems", [])
         examples += ctx.coverage.get("nonvacuity_examples", 0)
@@ -51,8 +52,8 @@ def run(ctx):
     ]
     return ctx.finish(
         level="proof",
-        rule="264 hand-written programs run first (16: one per clause of the statement; 20: an operator that desugars to a runtime call "
-             "(string +) with a lazy left operand x effects nested in the right operand; 48: host calls the compiler inserts "
+        rule="280 hand-written programs run first (16: one per clause of the statement; 36: an operator that desugars to a runtime call "
+             "(string +, list +) with a lazy left operand x effects nested in the right operand; 48: host calls the compiler inserts "
              "implicitly — f-strings with 2 and 3 interpolated parts x every tuple of part kinds {host value with a logging to_string, "
              "effectful call, block with effect}, `==`/`!=` on host values; 45: a bare variable / field path as a constructor component "
              "that a later component assigns, per constructor kind; 88: a record literal of R, P (two fields), G[T], H[T] in every "
